@@ -268,6 +268,56 @@ def gen_reservoir():
                          body=stmts, decorator_list=[], lineno=rf.lineno, col_offset=0)
     ast.fix_missing_locations(fn)
     P.Tr(m, fn, emit_name="recovery_flux_cols", kinds={"u0": "list", "u1": "list", "u2": "list", "time": "list"}).translate()
+    # ... and the in-place (density=True) branch, cut at the row sum: the total of one stored level
+    #   pseudopressure_to_mass = interp1d(m-scaled, density, fill_value="extrapolate") ; mass = ..(self.pseudopressure) ; np.sum(mass, 1)
+    # and what is done with the totals: cumulative = 1.0 - mass_over_time / mass_over_time[0] ; self.recovery = cumulative * self.fvf_scale()
+    body = dens_if[0].body
+    txts = [ast.unparse(n).replace(" ", "") for n in body]
+    if not (len(body) == 4 and txts[1] == "mass=pseudopressure_to_mass(self.pseudopressure)" and txts[2] == "mass_over_time=np.sum(mass,1)"
+            and txts[0].startswith("pseudopressure_to_mass=interpolate.interp1d(") and txts[3].startswith("cumulative=")):
+        raise P.Untranslatable("recovery_factor: unexpected structure of the density branch")
+
+    class Dens(ast.NodeTransformer):
+        def visit_Subscript(self, node):
+            d = ast.unparse(node).replace("'", '"')
+            ren = {'self.fluid.pvt_props["m-scaled"]': "m_scaled", 'self.fluid.pvt_props["density"]': "density"}
+            if d in ren:
+                return ast.copy_location(ast.Name(id=ren[d], ctx=ast.Load()), node)
+            return self.generic_visit(node)
+
+        def visit_Attribute(self, node):
+            d = ast.unparse(node)
+            if d == "self.pseudopressure":
+                return ast.copy_location(ast.Name(id="level", ctx=ast.Load()), node)
+            if d == "self.recovery":
+                return ast.copy_location(ast.Name(id="recovery", ctx=node.ctx), node)
+            return self.generic_visit(node)
+
+        def visit_Call(self, node):
+            if ast.unparse(node) == "self.fvf_scale()":
+                return ast.copy_location(ast.Name(id="fvf", ctx=ast.Load()), node)
+            return self.generic_visit(node)
+    row_stmts = [Dens().visit(copy.deepcopy(n)) for n in body[:2]] + [ast.parse("return np.sum(mass)").body[0]]
+    fn = ast.FunctionDef(name="recovery_inplace_total", args=ast.arguments(posonlyargs=[], args=[ast.arg(arg=a) for a in ("m_scaled", "density", "level")], kwonlyargs=[], kw_defaults=[], defaults=[]),
+                         body=row_stmts, decorator_list=[], lineno=rf.lineno, col_offset=0)
+    ast.fix_missing_locations(fn)
+    P.Tr(m, fn, emit_name="recovery_inplace_total", option=True, ret_annot="option R", kinds={"m_scaled": "list", "density": "list", "level": "list"}).translate()
+    cum_stmts = [Dens().visit(copy.deepcopy(n)) for n in (body[3], store[0])] + [ast.parse("return recovery").body[0]]
+    fn = ast.FunctionDef(name="recovery_inplace_cum", args=ast.arguments(posonlyargs=[], args=[ast.arg(arg=a) for a in ("mass_over_time", "fvf")], kwonlyargs=[], kw_defaults=[], defaults=[]),
+                         body=cum_stmts, decorator_list=[], lineno=rf.lineno, col_offset=0)
+    ast.fix_missing_locations(fn)
+    P.Tr(m, fn, emit_name="recovery_inplace_cum", kinds={"mass_over_time": "list"}).translate()
+    # recovery_factor_interpolator: the lookup object built from the stored times and recovery
+    #   interpolate.interp1d(time, recovery, bounds_error=False, fill_value=(0, recovery[-1]))
+    ri = m.method("IdealReservoir", "recovery_factor_interpolator")
+    asg = [n for n in ri.body if isinstance(n, ast.Assign) and ast.unparse(n.targets[0]) == "interpolator"]
+    ret = [n for n in ri.body if isinstance(n, ast.Return)]
+    if not (len(asg) == 1 and len(ret) == 1 and ast.unparse(ret[0].value) == "interpolator"):
+        raise P.Untranslatable("recovery_factor_interpolator: unexpected structure")
+    fn = ast.FunctionDef(name="recovery_lookup", args=ast.arguments(posonlyargs=[], args=[ast.arg(arg=a) for a in ("time", "recovery", "q")], kwonlyargs=[], kw_defaults=[], defaults=[]),
+                         body=[copy.deepcopy(asg[0]), ast.parse("return interpolator(q)").body[0]], decorator_list=[], lineno=ri.lineno, col_offset=0)
+    ast.fix_missing_locations(fn)
+    P.Tr(m, fn, emit_name="recovery_lookup", option=True, ret_annot="option R", kinds={"time": "list", "recovery": "list"}).translate()
     return m
 
 
